@@ -256,6 +256,16 @@ fn explicit_cases() -> Vec<(String, Vec<u8>, String)> {
             }
         }
     }
+    // IcyDraw layer records that declare no columns and an extreme number of rows (with and without data behind)
+    for w in [0i32, -1, i32::MIN] {
+        for h in [i32::MAX, 1 << 24, 1 << 16] {
+            for data in [vec![], vharness::icy::short_cell(0, b'a', 7, 0, 0)] {
+                let l = vharness::icy::LayerRec { w, h, data: data.clone(), ..Default::default() };
+                let chunks = vec![("ICED".to_string(), vharness::icy::iced_header(2, 2)), ("LAYER_0".to_string(), l.bytes()), ("END".to_string(), vec![])];
+                v.push(("x.icy".into(), vharness::icy::build_png(&chunks), format!("IcyDraw layer of size {w} x {h} with {} data bytes", data.len())));
+            }
+        }
+    }
     // IcyDraw layer records with extreme 64 bit data lengths
     for len in [u64::MAX, u64::MAX - 1, 1 << 63, (1 << 63) - 1, 1 << 32, (1 << 32) - 1, u32::MAX as u64 - 40] {
         for role in [0u8, 1] {
@@ -549,7 +559,7 @@ impl Engine for Load {
                 Stratum::Tokens { .. } => "control token streams (depth 1 and 2) as files of the text formats",
                 Stratum::Names(_) => "file names without / with odd extensions",
                 Stratum::Equations(_) => "PSF2 headers whose fields solve the loader's length equation with extreme operands",
-                Stratum::Explicit(_) => "explicit files: fonts of degenerate size followed by a sixel image, sparse cursor jumps under a SAUCE record with an extreme height, IcyDraw layer records with extreme 64 bit lengths",
+                Stratum::Explicit(_) => "explicit files: fonts of degenerate size followed by a sixel image, sparse cursor jumps under a SAUCE record with an extreme height, UTF-8 files with characters above U+00FF behind every lead-in, IcyDraw layers without columns and with extreme row counts, IcyDraw layer records with extreme 64 bit lengths",
             };
             let e = m.entry(k).or_insert((0, 0));
             e.0 += 1;
